@@ -39,9 +39,9 @@ func runC06(c *report.Ctx) {
 	checkFailureHasBody(c)
 	c.Clause("3 first fault wins")
 	checkFirstFatalErrorLifetime(c)
-	checkCancelRearmed(c) // after a recovery the next fault must again be able to cancel the waiting handler
-	checkAppCtxKeys(c)       // the record does not leak into the next generation
-	checkReplySinkGuards(c)  // a reply is marked sent only when one was produced: the substitute error still goes out
+	checkCancelRearmed(c)   // after a recovery the next fault must again be able to cancel the waiting handler
+	checkAppCtxKeys(c)      // the record does not leak into the next generation
+	checkReplySinkGuards(c) // a reply is marked sent only when one was produced: the substitute error still goes out
 	checkFirstFaultPrecedence(c)
 	c.Clause("4 launch failures record a cause")
 	checkLaunchFailures(c)
